@@ -693,7 +693,7 @@ def _scenarios(rng, tier, T):
         for s in dep_structs:
             scen.append((f"depfun/{s}/unfitted", {"type": "depfun", "model": random_spec(rng, s), "fitted": False, "semantics": bool(rng.integers(0, 2)),
                                                  "par_rename": {"mu": "$\\mu$", "alpha": "scale"} if rng.integers(0, 2) else None}))
-        for s in ("dnvgl_hs_tz", "omae_hs_tz", "dnvgl_hs_u", "fork3"):
+        for s in ("dnvgl_hs_tz", "omae_hs_tz", "dnvgl_hs_u", "fork3", "fixfirst2"):
             scen.append((f"depfun/{s}/fitted", {"type": "depfun", "model": random_spec(rng, s), "fitted": True, "n": int(rng.integers(1500, 4000)),
                                                "fit_seed": int(rng.integers(0, 2**31)), "semantics": True, "par_rename": None}))
     # --- isodensity
